@@ -84,6 +84,28 @@ CHECKS = {
             "mpic/ne16 references re-use the registered hardware formula (C16 checks the formula); "
             "tolerance 1e-4 relative.",
             "DESIGN.md 4/C05"),
+    'C13': ("Hypothesis-generated tensors + exhaustive level-boundary sweep through the quantizers; "
+            "range / integrality / monotonicity / round-trip / error-bound oracles",
+            "Generated-input search directly on MinMaxWeight, PACTAct and QuantizerBias: tensors with "
+            "per-channel magnitudes 2^[-30,13] of several degenerate kinds, all supported bit-widths, "
+            "clip values 0.05..1e3; every level boundary and rounding half-point (+-1 ulp) for bits "
+            "{2,3,4,8} is enumerated. Oracles are algebraic laws stated in the property (range, "
+            "integrality, int x scale round-trip, truncation, error < one step, monotonicity, zero "
+            "scale -> zero).",
+            "Float32 comparison tolerances stated in the evidence assumptions; PACT scale vs 1e-3 "
+            "stabiliser and bias isclose(1e-8) zero test treated as by-design.",
+            "DESIGN.md 4/C13"),
+    'C10': ("model-based testing of call histories (Hypothesis operation sequences interpreted "
+            "against the real selector and a dict model of the option state)",
+            "Generated histories of coefficient changes, single-option updates, train/eval switches "
+            "and forwards on single MPS selectors, single SuperNet combiners, whole MPS models and "
+            "whole SuperNets; after every forward the sampled coefficients are compared with what "
+            "the model state prescribes (one-hot at arg-max / any one-hot / exactly the float64 "
+            "tempered softmax / Gumbel-perturbed / unchanged), then summary() and export() are "
+            "compared with the arg-max of the raw coefficients.",
+            "No ties (pairwise gaps >= 0.05); Gumbel recognised statistically by non-coincidence "
+            "with the noise-free softmax.",
+            "DESIGN.md 4/C10"),
 }
 
 NOT_YET = "check not built yet in this session; planned with property-based testing per DESIGN.md section 4"
